@@ -2,5 +2,5 @@
 # tools/accept.sh <Cxx>...: clean run on /repo, then the round-2 seeds; summary lines only
 for P in "$@"; do
   echo "##### $P clean: $(cd /verif && ./check $P 2>&1 | grep -E 'VIOLATION|cases,' | tr '\n' ' ')"
-  SEED_PREFIX=seed2 /verif/tools/seedbatch.sh $P x 2>&1 | grep -E "^===|cases,|exit=|no-failing" | cut -c1-150
+  SEED_PREFIX=${SEED_PREFIX:-seed2} /verif/tools/seedbatch.sh $P x 2>&1 | grep -E "^===|cases,|exit=|no-failing" | cut -c1-150
 done
